@@ -26,8 +26,20 @@ class ResponseModel:
         if len(ch) != 1:
             raise CheckerError("response rules: transfer-coding chooser not found (%s)" % ch)
         self.chooser = facts.fn(ch[0])
-        hw = [k for k, g in facts.local_fns.items() if g.file == self.file and g.rec["def_kind"] == "Fn" and any(l["ty"] == "&common::StatusCode" for l in g.locals[1:1 + g.argc])
-              and any("common::Header" in l["ty"] for l in g.locals[1:1 + g.argc])]
+        # the head writer: the function of this file, returning io::Result<()>, whose parameters give it the status code and the header list
+        # (directly, or inside a struct of this crate) next to a writer
+        def covers(g, needle):
+            for l in g.locals[1:1 + g.argc]:
+                ty = l["ty"]
+                if needle in ty:
+                    return True
+                a = facts.adts.get(ty.lstrip("&").replace("mut ", ""))
+                if a is not None and a["kind"] == "Struct" and a["id"] != RESP and any(needle in x["ty"] for x in a["variants"][0]["fields"]):
+                    return True
+            return False
+        hw = [k for k, g in facts.local_fns.items() if g.file == self.file and g.rec["def_kind"] in ("Fn", "AssocFn") and "{closure" not in k
+              and g.rec.get("impl_self_adt") != RESP and g.rec.get("impl_trait") is None
+              and g.locals[0]["ty"] == "std::result::Result<(), std::io::Error>" and covers(g, "common::StatusCode") and covers(g, "common::Header")]
         if len(hw) != 1:
             raise CheckerError("response rules: head writer not found (%s)" % hw)
         self.head_writer = facts.fn(hw[0])
@@ -35,10 +47,18 @@ class ResponseModel:
         self.f = inline.inlined(facts, self.rp.id, stop=lambda d: facts.fns[d].rec.get("local") and (not same(d) or d in stops), extern_ok=Q.std_small)
         ra = facts.adt(RESP)["variants"][0]["fields"]
         self.fields = {x["name"]: x["ty"] for x in ra}
-        self.status_f = [n for n, t in self.fields.items() if t == STATUS][0]
+        def one(rx, what):
+            ps = shared.find_slot_paths(facts, RESP, rx)
+            if len(ps) != 1:
+                raise CheckerError("response rules: %s of Response not found (%s)" % (what, ps))
+            return ps[0]
+        self.status_path = one(r"^common::StatusCode$", "status code")
+        self.headers_path = one(r"^std::vec::Vec<common::Header", "header list")
+        self.status_f, self.headers_f = self.status_path[-1], self.headers_path[-1]
+        self.status_key = tuple("." + x for x in self.status_path)
+        self.headers_key = tuple("." + x for x in self.headers_path)
         self.len_f = [n for n, t in self.fields.items() if t == "std::option::Option<usize>"]
         self.reader_f = [n for n, t in self.fields.items() if t == "R"][0]
-        self.headers_f = [n for n, t in self.fields.items() if t.startswith("std::vec::Vec<common::Header")][0]
         # data_length vs chunked_threshold: the one raw_print matches on together with the coding is the declared length; bind by name order
         # robustly: the field that the chooser receives by reference as its `entity length`
         self.dlen_f = None
@@ -54,7 +74,7 @@ class ResponseModel:
     def run(self, status, dlen, dns, te, upgrade):
         f = self.f
         st = symex.Sym(f)
-        st.write_key((1, "." + self.status_f), ("agg", STATUS, "StatusCode", {"0": ("const", status, "%d_u16" % status, None)}))
+        st.write_key((1,) + self.status_key, ("agg", STATUS, "StatusCode", {"0": ("const", status, "%d_u16" % status, None)}))
         st.write_key((1, "." + self.dlen_f), ("none",) if dlen is None else ("some", ("const", dlen, "%d_usize" % dlen, None)))
         st.write_key((1, "." + self.reader_f), BODY)
         st.write_key((2,), OUT)
